@@ -12,6 +12,7 @@ use crate::vmc::*;
 use crate::world::*;
 use lightning_signer::bitcoin::secp256k1::PublicKey;
 use lightning_signer::lightning::types::payment::PaymentPreimage;
+use lightning_signer::util::test_utils::build_tx_scripts;
 use serde::{Deserialize, Serialize};
 use std::collections::{BTreeMap, BTreeSet};
 
@@ -42,6 +43,9 @@ pub enum Op {
     /// force close: the current holder commitment of the channel is signed for broadcast (its
     /// HTLCs stay in flight until they are resolved on chain)
     ForceClose(u64),
+    /// the clock moves beyond expiry + prune time of every approval made so far, then a heartbeat
+    /// (which prunes completed, expired payments)
+    PruneBeat,
 }
 
 #[derive(Clone, Default, Debug, Serialize)]
@@ -62,6 +66,17 @@ pub struct Ghost {
     /// channel 1 was force-closed (offered once per history)
     #[serde(default)]
     pub force_closed: bool,
+    /// number of PruneBeat letters so far
+    #[serde(default)]
+    pub beats: u8,
+    /// at the most recent PruneBeat nothing was in flight towards the approved hash in any current
+    /// commitment of the ledger, so the approval may have been dropped for good and a following
+    /// approval request is a new approval (of the same amount) rather than a repetition
+    #[serde(default)]
+    pub may_be_pruned: bool,
+    /// a preimage was disclosed to the signer
+    #[serde(default)]
+    pub fulfilled: bool,
 }
 
 pub struct PState {
@@ -94,6 +109,16 @@ pub struct PayModel {
     /// forwards and pays at once)
     #[serde(default)]
     pub incoming_prefix: bool,
+    /// the payment is approved by a BOLT-11 invoice (add_invoice) instead of a keysend
+    #[serde(default)]
+    pub invoice: bool,
+    /// commitment updates go through the raw-transaction entry points (sign_counterparty_commitment_tx,
+    /// validate_holder_commitment_tx) with the canonical transaction and its witness scripts
+    #[serde(default)]
+    pub phase1: bool,
+    /// letter PruneBeat (time passes, heartbeat prunes); approval may be asked for again afterwards
+    #[serde(default)]
+    pub prune: bool,
 }
 
 pub fn pc_content(pc: PC) -> Content {
@@ -111,6 +136,27 @@ pub fn pc_content(pc: PC) -> Content {
     };
     let sum: u64 = out.iter().chain(inc.iter()).map(|x| x.value_sat).sum();
     Content { to_holder: base - sum, to_cp: 0, feerate: 1000, out, inc }
+}
+
+/// a BOLT-11 invoice of the payee (key 201) for `pay_hash(x)`, one day of expiry
+fn bolt11(x: u8, amt_msat: u64, created: u64) -> lightning_signer::invoice::Invoice {
+    use lightning_signer::bitcoin::hashes::sha256::Hash as Sha256Hash;
+    use lightning_signer::bitcoin::hashes::Hash;
+    use lightning_signer::lightning::types::payment::PaymentSecret;
+    use lightning_signer::lightning_invoice::{Currency, InvoiceBuilder};
+    let key = sk(201);
+    lightning_signer::invoice::Invoice::Bolt11(
+        InvoiceBuilder::new(Currency::Regtest)
+            .description("payflow".into())
+            .payment_hash(Sha256Hash::from_byte_array(pay_hash(x).0))
+            .payment_secret(PaymentSecret([x; 32]))
+            .duration_since_epoch(std::time::Duration::from_secs(created))
+            .expiry_time(std::time::Duration::from_secs(86_400))
+            .min_final_cltv_expiry_delta(144)
+            .amount_milli_satoshis(amt_msat)
+            .build_signed(|hash| secp().sign_ecdsa_recoverable(hash, &key))
+            .unwrap(),
+    )
 }
 
 fn out_of(pc: Option<PC>, hash: u8) -> u128 {
@@ -139,7 +185,7 @@ impl PayModel {
     /// payment of issue 331 followed by an approval for the same hash) is not caused by a later
     /// update that leaves that hash alone.
     fn check_ledger(&self, s: &PState, before: &BTreeMap<u64, ChanLedger>, op: &Op, vios: &mut Vec<Vio>) {
-        let kind = op_kind(op);
+        let kind = self.kind(op);
         let sums = |chans: &BTreeMap<u64, ChanLedger>, hash: u8| -> (u128, u128) {
             let mut out: u128 = 0;
             let mut inc: u128 = 0;
@@ -186,10 +232,20 @@ impl PayModel {
             if inc < out {
                 vios.push(Vio {
                     prop: "C06",
-                    key: format!("C06:unbacked-outgoing-htlc-accepted:{}", op_kind(op)),
+                    key: format!("C06:unbacked-outgoing-htlc-accepted:{}", self.kind(op)),
                     what: format!("{:?} accepted an outgoing HTLC of {} sat for hash {} that has no approved invoice, was never seen before and is covered by only {} sat of incoming value in the same update", op, out, hash, inc),
                 });
             }
+        }
+    }
+
+    /// the entry point a letter goes through in this configuration
+    fn kind(&self, op: &Op) -> &'static str {
+        match op {
+            Op::Approve if self.invoice => "add_invoice",
+            Op::SignCp(..) if self.phase1 => "sign_counterparty_commitment_tx",
+            Op::Validate(..) if self.phase1 => "validate_holder_commitment_tx",
+            _ => op_kind(op),
         }
     }
 
@@ -211,6 +267,7 @@ fn op_kind(op: &Op) -> &'static str {
         Op::Fulfil(..) => "htlcs_fulfilled",
         Op::ForceClose(_) => "sign_holder_commitment_tx_phase2",
         Op::Restart => "restart",
+        Op::PruneBeat => "get_heartbeat",
     }
 }
 
@@ -223,7 +280,7 @@ impl Model for PayModel {
     }
 
     fn name(&self) -> String {
-        format!("payflow(ops<={},contents={:?},k={}{}{}{}{})", self.max_ops, self.contents, self.k, if self.strict { ",enforce_balance" } else { "" }, if self.monitors { ",monitors" } else { "" }, if self.holder_letters { "" } else { ",cp-side-only" }, if self.locked_prefix { ",first-part-locked-in" } else { "" }) + if self.declined { ",approval-declined-by-velocity" } else { "" } + if self.incoming_prefix { ",incoming-locked-in" } else { "" }
+        format!("payflow(ops<={},contents={:?},k={}{}{}{}{})", self.max_ops, self.contents, self.k, if self.strict { ",enforce_balance" } else { "" }, if self.monitors { ",monitors" } else { "" }, if self.holder_letters { "" } else { ",cp-side-only" }, if self.locked_prefix { ",first-part-locked-in" } else { "" }) + if self.declined { ",approval-declined-by-velocity" } else { "" } + if self.incoming_prefix { ",incoming-locked-in" } else { "" } + if self.invoice { ",bolt11-invoice" } else { "" } + if self.phase1 { ",raw-tx-entry-points" } else { "" } + if self.prune { ",prune-beat" } else { "" }
     }
 
     fn init(&self) -> PState {
@@ -285,8 +342,11 @@ impl Model for PayModel {
             return vec![];
         }
         let mut v = vec![];
-        if s.ghost.approved_msat.is_empty() || !s.ghost.reapproved {
+        if s.ghost.approved_msat.is_empty() || !s.ghost.reapproved || (self.prune && s.ghost.beats > 0) {
             v.push(Op::Approve);
+        }
+        if self.prune && s.ghost.beats < 2 {
+            v.push(Op::PruneBeat);
         }
         if self.holder_letters {
             v.push(Op::Restart);
@@ -330,7 +390,7 @@ impl Model for PayModel {
         s.nops += 1;
         let mon = check && self.monitors;
         let before = if mon { Some(s.w().snapshot()) } else { None };
-        let kind = op_kind(op);
+        let kind = self.kind(op);
         let mut tag = "ok".to_string();
         match op {
             Op::Restart => {
@@ -347,14 +407,41 @@ impl Model for PayModel {
             Op::Approve => {
                 let node = s.w().node.clone();
                 let payee = PublicKey::from_secret_key(&secp(), &sk(201));
-                let r = call(move || node.add_keysend(payee, pay_hash(1), A_SAT * 1000).map_err(|e| status_kind(&e)));
+                let r = if self.invoice {
+                    // the invoice is created "now" (a re-approval after time has passed presents a
+                    // fresh invoice for the same hash and amount, as a payee would issue it)
+                    let now = s.w().now();
+                    let created = if s.ghost.beats == 0 { START_TIME } else { now };
+                    call(move || node.add_invoice(bolt11(1, A_SAT * 1000, created)).map_err(|e| status_kind(&e)))
+                } else {
+                    call(move || node.add_keysend(payee, pay_hash(1), A_SAT * 1000).map_err(|e| status_kind(&e)))
+                };
                 tag = r.tag();
-                if !s.ghost.approved_msat.is_empty() {
-                    // the same keysend again: whatever the answer, one payment was approved once
+                if !s.ghost.approved_msat.is_empty() && !s.ghost.may_be_pruned {
+                    // the same payment again: whatever the answer, one payment was approved once
                     s.ghost.reapproved = true;
                 } else if let Outcome::Ok(true) = r {
+                    // first approval, or an approval after the earlier one may have been pruned with
+                    // nothing in flight: the amount approved for what is in flight now is A either way
                     s.ghost.approved_msat.insert(1, A_SAT * 1000);
+                    s.ghost.may_be_pruned = false;
                 }
+            }
+            Op::PruneBeat => {
+                s.ghost.beats += 1;
+                // beyond creation + expiry (one day for the invoice, keysends less) + prune time (one day)
+                let t = s.w().now() + 3 * 86_400;
+                s.w().clock.set(std::time::Duration::from_secs(t));
+                let node = s.w().node.clone();
+                let r = call(move || Ok::<_, String>(node.get_heartbeat().heartbeat.chain_height));
+                tag = r.tag();
+                if r.is_panic() {
+                    s.dead = true;
+                    return;
+                }
+                let in_flight: u128 = s.ghost.chans.values().map(|l| out_of(l.cur_holder, 1).max(out_of(l.cur_cp, 1)).max(out_of(l.pending_holder, 1))).sum();
+                // a payment whose preimage was disclosed is complete as well, whatever is still in the commitments
+                s.ghost.may_be_pruned = in_flight == 0 || s.ghost.fulfilled;
             }
             Op::Validate(d, pc) => {
                 let (nh, _, _) = s.counters(*d);
@@ -362,7 +449,19 @@ impl Model for PayModel {
                 let f = &s.f[d];
                 let point = s.w().holder_point_raw(*d, nh).unwrap();
                 let (sig, hs) = f.params.cp_sign_holder_commitment(&f.cp, nh, &point, &c);
-                let r = s.w().with_chan(*d, |ch| ch.validate_holder_commitment_tx_phase2(nh, c.feerate, c.to_holder, c.to_cp, c.out_info(), c.inc_info(), &sig, &hs));
+                let r = if self.phase1 {
+                    let (ctx, keys) = f.params.holder_commitment(nh, &point, &c);
+                    let tx = ctx.trust().built_transaction().transaction.clone();
+                    let txp = f.params.tx_params();
+                    let ws: Vec<Vec<u8>> = build_tx_scripts(&keys, c.to_holder, c.to_cp, ctx.htlcs(), &txp.as_holder_broadcastable(), &f.params.holder_pubkeys.funding_pubkey, &f.params.setup.counterparty_points.funding_pubkey)
+                        .unwrap_or_default()
+                        .iter()
+                        .map(|x| x.to_bytes())
+                        .collect();
+                    s.w().with_chan(*d, |ch| ch.validate_holder_commitment_tx(&tx, &ws, nh, c.feerate, c.out_info(), c.inc_info(), &sig, &hs))
+                } else {
+                    s.w().with_chan(*d, |ch| ch.validate_holder_commitment_tx_phase2(nh, c.feerate, c.to_holder, c.to_cp, c.out_info(), c.inc_info(), &sig, &hs))
+                };
                 tag = r.tag();
                 if r.is_ok() {
                     self.check_unbacked(s, op, *pc, vios);
@@ -398,7 +497,20 @@ impl Model for PayModel {
                 let (_, nc, _) = s.counters(*d);
                 let c = pc_content(*pc);
                 let p = s.f[d].cp.point(nc);
-                let r = s.w().with_chan(*d, |ch| ch.sign_counterparty_commitment_tx_phase2(&p, nc, c.feerate, c.to_holder, c.to_cp, c.inc_info(), c.out_info()));
+                let r = if self.phase1 {
+                    let f = &s.f[d];
+                    let (ctx, keys) = f.params.counterparty_commitment(nc, &p, &c);
+                    let tx = ctx.trust().built_transaction().transaction.clone();
+                    let txp = f.params.tx_params();
+                    let ws: Vec<Vec<u8>> = build_tx_scripts(&keys, c.to_cp, c.to_holder, ctx.htlcs(), &txp.as_counterparty_broadcastable(), &f.params.setup.counterparty_points.funding_pubkey, &f.params.holder_pubkeys.funding_pubkey)
+                        .unwrap_or_default()
+                        .iter()
+                        .map(|x| x.to_bytes())
+                        .collect();
+                    s.w().with_chan(*d, |ch| ch.sign_counterparty_commitment_tx(&tx, &ws, &p, nc, c.feerate, c.inc_info(), c.out_info()).map(|_| ()))
+                } else {
+                    s.w().with_chan(*d, |ch| ch.sign_counterparty_commitment_tx_phase2(&p, nc, c.feerate, c.to_holder, c.to_cp, c.inc_info(), c.out_info()).map(|_| ()))
+                };
                 tag = r.tag();
                 if r.is_ok() {
                     self.check_unbacked(s, op, *pc, vios);
@@ -442,6 +554,7 @@ impl Model for PayModel {
                     Ok(())
                 });
                 tag = r.tag();
+                s.ghost.fulfilled = true;
                 if r.is_panic() {
                     s.dead = true;
                     return;
@@ -467,19 +580,28 @@ pub struct PayRun {
 pub fn explore(tier: Tier, monitors: bool, wall_s: f64) -> PayRun {
     let models_cfg: Vec<PayModel> = match (tier, monitors) {
         (Tier::Quick, false) => vec![
-            PayModel { max_ops: 4, contents: vec![PC::E, PC::Oh, PC::O1, PC::O2, PC::I1], k: 2, monitors, strict: false, holder_letters: true, locked_prefix: false, declined: false, incoming_prefix: false },
-            PayModel { max_ops: 6, contents: vec![PC::Oh, PC::O1], k: 3, monitors, strict: false, holder_letters: false, locked_prefix: false, declined: false, incoming_prefix: false },
-            PayModel { max_ops: 3, contents: vec![PC::E, PC::Oh, PC::O1, PC::O1x2], k: 3, monitors, strict: false, holder_letters: true, locked_prefix: true, declined: false, incoming_prefix: false },
-            PayModel { max_ops: 3, contents: vec![PC::E, PC::Oh, PC::O1, PC::O2], k: 2, monitors, strict: false, holder_letters: true, locked_prefix: false, declined: true, incoming_prefix: false },
-            PayModel { max_ops: 3, contents: vec![PC::E, PC::O1, PC::Ox, PC::I1], k: 3, monitors, strict: false, holder_letters: true, locked_prefix: false, declined: false, incoming_prefix: true },
+            PayModel { max_ops: 4, contents: vec![PC::E, PC::Oh, PC::O1, PC::O2, PC::I1], k: 2, monitors, strict: false, holder_letters: true, locked_prefix: false, declined: false, incoming_prefix: false, invoice: false, phase1: false, prune: false },
+            PayModel { max_ops: 6, contents: vec![PC::Oh, PC::O1], k: 3, monitors, strict: false, holder_letters: false, locked_prefix: false, declined: false, incoming_prefix: false, invoice: false, phase1: false, prune: false },
+            PayModel { max_ops: 3, contents: vec![PC::E, PC::Oh, PC::O1, PC::O1x2], k: 3, monitors, strict: false, holder_letters: true, locked_prefix: true, declined: false, incoming_prefix: false, invoice: false, phase1: false, prune: false },
+            PayModel { max_ops: 3, contents: vec![PC::E, PC::Oh, PC::O1, PC::O2], k: 2, monitors, strict: false, holder_letters: true, locked_prefix: false, declined: true, incoming_prefix: false, invoice: false, phase1: false, prune: false },
+            PayModel { max_ops: 3, contents: vec![PC::E, PC::O1, PC::Ox, PC::I1], k: 3, monitors, strict: false, holder_letters: true, locked_prefix: false, declined: false, incoming_prefix: true, invoice: false, phase1: false, prune: false },
+            // approval by a BOLT-11 invoice, updates through the raw-transaction entry points
+            PayModel { max_ops: 4, contents: vec![PC::O1, PC::Ox, PC::O2], k: 2, monitors, strict: false, holder_letters: true, locked_prefix: false, declined: false, incoming_prefix: false, invoice: true, phase1: true, prune: false },
+            PayModel { max_ops: 6, contents: vec![PC::Oh, PC::O1], k: 3, monitors, strict: false, holder_letters: false, locked_prefix: false, declined: false, incoming_prefix: false, invoice: true, phase1: true, prune: false },
+            // time passes, heartbeats prune expired approvals, the approval is asked for again
+            PayModel { max_ops: 5, contents: vec![PC::E, PC::O1], k: 3, monitors, strict: false, holder_letters: false, locked_prefix: false, declined: false, incoming_prefix: false, invoice: false, phase1: false, prune: true },
+            PayModel { max_ops: 5, contents: vec![PC::E, PC::O1], k: 3, monitors, strict: false, holder_letters: false, locked_prefix: false, declined: false, incoming_prefix: false, invoice: true, phase1: false, prune: true },
         ],
-        (Tier::Quick, true) => vec![PayModel { max_ops: 3, contents: vec![PC::E, PC::O1, PC::O2, PC::Ox], k: 2, monitors, strict: false, holder_letters: true, locked_prefix: false, declined: false, incoming_prefix: false }],
+        (Tier::Quick, true) => vec![PayModel { max_ops: 3, contents: vec![PC::E, PC::O1, PC::O2, PC::Ox], k: 2, monitors, strict: false, holder_letters: true, locked_prefix: false, declined: false, incoming_prefix: false, invoice: false, phase1: false, prune: false }],
         (Tier::Thorough, _) => vec![
-            PayModel { max_ops: 6, contents: vec![PC::E, PC::Oh, PC::O1, PC::Ox, PC::O2, PC::I1, PC::I2O2, PC::O1x2], k: 2, monitors, strict: false, holder_letters: true, locked_prefix: false, declined: false, incoming_prefix: false },
-            PayModel { max_ops: 5, contents: vec![PC::E, PC::Oh, PC::O1, PC::O2, PC::I1], k: 2, monitors, strict: true, holder_letters: true, locked_prefix: false, declined: false, incoming_prefix: false },
-            PayModel { max_ops: 5, contents: vec![PC::E, PC::Oh, PC::O1, PC::Ox, PC::O1x2, PC::I1], k: 3, monitors, strict: false, holder_letters: true, locked_prefix: true, declined: false, incoming_prefix: false },
-            PayModel { max_ops: 5, contents: vec![PC::E, PC::Oh, PC::O1, PC::O2, PC::I1], k: 2, monitors, strict: false, holder_letters: true, locked_prefix: false, declined: true, incoming_prefix: false },
-            PayModel { max_ops: 5, contents: vec![PC::E, PC::Oh, PC::O1, PC::Ox, PC::O1x2, PC::I1], k: 3, monitors, strict: false, holder_letters: true, locked_prefix: false, declined: false, incoming_prefix: true },
+            PayModel { max_ops: 6, contents: vec![PC::E, PC::Oh, PC::O1, PC::Ox, PC::O2, PC::I1, PC::I2O2, PC::O1x2], k: 2, monitors, strict: false, holder_letters: true, locked_prefix: false, declined: false, incoming_prefix: false, invoice: false, phase1: false, prune: false },
+            PayModel { max_ops: 5, contents: vec![PC::E, PC::Oh, PC::O1, PC::O2, PC::I1], k: 2, monitors, strict: true, holder_letters: true, locked_prefix: false, declined: false, incoming_prefix: false, invoice: false, phase1: false, prune: false },
+            PayModel { max_ops: 5, contents: vec![PC::E, PC::Oh, PC::O1, PC::Ox, PC::O1x2, PC::I1], k: 3, monitors, strict: false, holder_letters: true, locked_prefix: true, declined: false, incoming_prefix: false, invoice: false, phase1: false, prune: false },
+            PayModel { max_ops: 5, contents: vec![PC::E, PC::Oh, PC::O1, PC::O2, PC::I1], k: 2, monitors, strict: false, holder_letters: true, locked_prefix: false, declined: true, incoming_prefix: false, invoice: false, phase1: false, prune: false },
+            PayModel { max_ops: 5, contents: vec![PC::E, PC::Oh, PC::O1, PC::Ox, PC::O1x2, PC::I1], k: 3, monitors, strict: false, holder_letters: true, locked_prefix: false, declined: false, incoming_prefix: true, invoice: false, phase1: false, prune: false },
+            PayModel { max_ops: 5, contents: vec![PC::E, PC::Oh, PC::O1, PC::Ox, PC::O2, PC::I1], k: 2, monitors, strict: false, holder_letters: true, locked_prefix: false, declined: false, incoming_prefix: false, invoice: true, phase1: true, prune: false },
+            PayModel { max_ops: 6, contents: vec![PC::E, PC::Oh, PC::O1], k: 3, monitors, strict: false, holder_letters: true, locked_prefix: false, declined: false, incoming_prefix: false, invoice: false, phase1: false, prune: true },
+            PayModel { max_ops: 6, contents: vec![PC::E, PC::Oh, PC::O1], k: 3, monitors, strict: false, holder_letters: true, locked_prefix: false, declined: false, incoming_prefix: false, invoice: true, phase1: false, prune: true },
         ],
     };
     let mut stats = BfsStats { closed: true, ..Default::default() };
